@@ -27,6 +27,8 @@ var extractors = []extractor{
 	{"WrapRO", genWrapRO},
 	{"AuthFile", genAuthFile},
 	{"Locks", genLocks},
+	{"RefPat", genRefPat},
+	{"Unify", genUnify},
 }
 
 func main() {
